@@ -2,6 +2,7 @@ package main
 
 import (
 	"fmt"
+	"sync"
 	"go/types"
 	"strings"
 
@@ -147,6 +148,11 @@ type FE struct {
 	strLits  map[string]string // literal -> const name
 	strOrder []string
 	paths    int
+	heapSorts map[string]string
+	joinDisj  map[string][]string // join fact -> its disjuncts (for case splitting in the solver stage)
+	jmu       sync.Mutex
+	pending  map[*ssa.BasicBlock][]*State // states parked at join blocks (mergejoins)
+	rpo      map[*ssa.BasicBlock]int
 	errs     []string
 	loops    map[*ssa.BasicBlock]*loopInfo
 	loopOrd  []*ssa.BasicBlock
@@ -253,18 +259,16 @@ func (fe *FE) heapTerm(st *State, name, sort string) string {
 	return init
 }
 
-var heapSorts = map[string]string{}
-
+// heap array sorts are per function: the sort of an int-typed field depends on the function's arithmetic mode
 func (fe *FE) heapSort(name, sort string) {
-	fe.V.mu.Lock()
-	heapSorts[name] = sort
-	fe.V.mu.Unlock()
+	if fe.heapSorts == nil {
+		fe.heapSorts = map[string]string{}
+	}
+	fe.heapSorts[name] = sort
 }
 
 func (fe *FE) havocHeap(st *State, name string) {
-	fe.V.mu.Lock()
-	sort, ok := heapSorts[name]
-	fe.V.mu.Unlock()
+	sort, ok := fe.heapSorts[name]
 	if !ok {
 		st.heap[name] = "?"
 		return
